@@ -197,6 +197,7 @@ def run(tier: str) -> int:
     run_family_p(chk, tier)
     run_family_v(chk, tier, sorted(seen))
     run_family_r(chk, tier)
+    run_family_c(chk, tier)
     from harness import inline
     inline.judge(chk, tier, "C01")
     for id_ in list(metas)[:: max(1, len(metas) // 4)][:4]:
@@ -254,6 +255,69 @@ def run_family_p(chk: Check, tier: str) -> None:
             chk.violation("SameDocument(marko)" if dm else "SameDocument(markdown-it)",
                           dict(m, first_diff_marko=dm, first_diff_mdit=di, marko_in=t["tm_in"][max(0, dm - 2): dm + 2], marko_out=t["tm_out"][max(0, dm - 2): dm + 2]))
     chk.notes["family_P"] = dict(pairs=len(traces), failing=bad)
+
+
+CONTAINERS_C = [("quote", "> ", "> "), ("bullet", "- ", "  "), ("ordered", "1. ", "   "), ("ordered10", "10. ", "    "), ("footnote", "[^1]: ", "    "),
+                ("alert", "> [!NOTE]\n> ", "> "), ("quote>bullet", "> - ", ">   "), ("bullet>quote", "- > ", "  > "), ("nested", "- a\n  - ", "    "),
+                ("task", "- [ ] ", "  "), ("quote>quote", "> > ", "> > ")]
+
+
+def wrap_in(first: str, cont: str, text: str) -> str:
+    lines = text.split("\n")
+    return "\n".join((first if j == 0 else (cont.rstrip() if l == "" else cont)) + l for j, l in enumerate(lines))
+
+
+def eval_c(job):
+    (cname, first, cont), lead, (na, a), opts = job
+    body = (lead + "\n\n" + a) if lead else a
+    x = ("ref[^1]\n\n" if cname == "footnote" else "") + wrap_in(first, cont, body) + "\n\nafter\n"
+    r = docs.eval_text(x, opts)
+    r.update(src=x, opts=opts, pair=[cname + ("+lead" if lead else ""), na])
+    r.pop("mdit_tree_in", None)
+    return r
+
+
+def run_family_c(chk: Check, tier: str) -> None:
+    """every block snippet inside every container, as the first block of the container and after a leading paragraph"""
+    opts = OPTS_S if tier == "thorough" else OPTS_S[:1]
+    jobs = [(c, lead, sn, o) for c in CONTAINERS_C for lead in ("", "lead text") for sn in SNIPPETS for o in opts
+            if not (sn[0] in ("def", "footnote") and c[0] != "quote")]          # definitions are document-level constructs
+    traces, metas = [], {}
+    for tid, (job, r) in enumerate(zip(jobs, pmap(eval_c, jobs, chunksize=40)), 1):
+        chk.evaluations += 1
+        if "exc" in r:
+            chk.violation("NoException", dict(src=r["src"], opts=r["opts"], exc=r["exc"]))
+            continue
+        traces.append(docs.trace_of(tid, "C", r))
+        metas[tid] = dict(fam="C", pair=r["pair"], src=r["src"], opts=r["opts"], out=r["out1"])
+        chk.nontriv(("C", r["pair"][0], r["pair"][1], docs.dumps(r["opts"])))
+    reports, gen, dist = tlc.validate_traces("DocTrace", traces, cfg=docs.DOC_TRACE_CFG, timeout=3000)
+    chk.states += dist
+    chk.transitions += gen
+    chk.traces += len(traces)
+    stats = dict(ok=0, D44=0, D49=0, failing=0)
+    for t in traces:
+        _, id_, _acc, dm, di, _idem, _rt, _pfx, _hz = reports[t["id"]]
+        if not (dm or di):
+            stats["ok"] += 1
+            continue
+        m = metas[id_]
+        a, b = t["tm_in"], t["tm_out"]
+        only_loosened = len(a) == len(b) and all(x == y or (x.startswith("list:") and x.replace(":tight(", ":loose(") == y) for x, y in zip(a, b))
+        # D44: a loose list that follows another block inside an item gets its separator also before its first item
+        if ("nested" in m["pair"][1] or m["pair"][0].startswith("nested+lead")) and only_loosened and "D44" in chk.open_findings:
+            chk.known_finding("D44", m)
+            stats["D44"] += 1
+            continue
+        # D49: marko does not see a table that is the first block of a list item (markdown-it does): only that reading differs
+        if dm == 0 and di and "D49" in chk.open_findings and "table(" in t["ti_in"] and "table(" not in t["tm_in"]:
+            chk.known_finding("D49", m)
+            stats["D49"] += 1
+            continue
+        stats["failing"] += 1
+        chk.violation("SameDocument(marko)" if dm else "SameDocument(markdown-it)",
+                      dict(m, first_diff_marko=dm, first_diff_mdit=di, marko_in=a[max(0, dm - 2): dm + 2], marko_out=b[max(0, dm - 2): dm + 2]))
+    chk.notes["family_C"] = dict(cases=len(traces), **stats)
 
 
 def variants(toks):
